@@ -70,6 +70,10 @@ PL.g_dispatch = P3.h_dispatch3
 L.l_fixed = P3.l_fixed_values
 L.t_ctl = P3.l_fixed_values
 T.t_proto = P3.t_proto_values
+C.s_gate = P3.s_gate_values
+IO.h_async1 = P3.h_async1_values
+D.h_hdr1 = P3.h_hdr1_values
+IO.h_asref = P3.h_asref_values
 C.h_protoread = P3.h_protoread_values
 
 PROPS = {}
@@ -87,7 +91,7 @@ def reg(pid, level, rules, explanation):
 
 reg("C01", "other",
     [T.t_bij, P.t_prop3, L.l_eq, B.l_cover, P.l_propdec, D.h_dispatch3, T.t_varint_readers, PL.s_persist, PL.h_total,
-     B.t_bits, C.h_payfmt, L.t_ctl, P3.h_shortform, TR.l_trace],
+     B.t_bits, C.h_payfmt, L.t_ctl, P3.h_shortform, TR.l_trace, P3.t_prims],
     "NOT decided: equality of the decoded value with the original over the unbounded value space (a runtime quantity). Decided: structural necessary conditions of a round trip, each exact for what it compares: "
     "T-bij (every wire-code enum's `as u8` discriminant table and its from_u8 table, evaluated for all 256 bytes, are inverse "
     "bijections), T-prop3 (decode / encode / encode_len of every v5 property set handle the same ids wired to the same field), L-eq "
@@ -100,7 +104,7 @@ reg("C01", "other",
     "every body put the same kinds of wire items in the same order and a field is read at the position at which it is written).")
 
 reg("C02", "other",
-    [L.l_eq, L.l_hdr, L.l_fixed, L.s_dbg, PN.s_panic_encode, T.t_width, T.t_varint_writer],
+    [L.l_eq, L.l_hdr, L.l_fixed, L.s_dbg, PN.s_panic_encode, T.t_width, T.t_varint_writer, P3.t_prims],
     "Decided exactly (all inputs of the valid domain): L-eq for each of the 35 `impl Encodable` (bytes written by encode == "
     "encode_len as multilinear polynomials over field-presence/variant atoms, i.e. for every subset of optional fields and "
     "properties, every reason code, any number of list elements); L-hdr (encode_packet = control byte, var-int of exactly "
@@ -111,7 +115,7 @@ reg("C02", "other",
 
 reg("C03", "other",
     [PN.s_panic_decode, PN.s_loop, PN.s_alloc, C.s_unsafe, C.h_utf8, PL.g_dispatch, PL.h_cap, PL.h_pending, T.t_varint_readers,
-     B.l_consume, P.l_propdec, PL.s_persist],
+     B.l_consume, P.l_propdec, PL.s_persist, P3.t_prims],
     "Site audit over the call-graph closure of all decoder entry points: every panic-capable site (arithmetic on unsigned "
     "integers, indexing incl. Index-trait calls, unwrap/expect, explicit panics) is discharged by a dominating-guard rule or a named "
     "table entry with a reason (the table entries are reviewed, not proved); every loop matches a progress pattern (counter loops are "
@@ -125,7 +129,7 @@ reg("C03", "other",
 
 reg("C04", "other",
     [T.t_codes, T.t_hdr, P.t_props, P.h_proplen, P.h_dup, P.h_bytevals, P.l_propdec, PL.h_exactfill, B.t_bits, B.h_checked_sub,
-     B.l_consume, C.h_ctor, C.h_utf8, T.t_varint_readers, P3.h_shortform],
+     B.l_consume, C.h_ctor, C.h_utf8, T.t_varint_readers, P3.h_shortform, P3.t_prims],
     "NOT decided: language equality between the strict decoder's accepted set and the MQTT grammar, nor the conjunction of the "
     "clauses below into it. Decided exactly against independent OASIS tables (spec_mqtt.py): header nibble/flag table for all 256 "
     "control bytes (T-hdr), accepted domain of every code table (T-codes), permitted property set per packet and its rejecting default "
@@ -156,7 +160,7 @@ reg("C06", "other",
     "encode side only).")
 
 reg("C07", "other",
-    [IO.s_readers, IO.s_ioerr, IO.t_eof, IO.h_noswallow, D.h_block, B.l_consume, PL.h_pending, PL.h_total],
+    [IO.s_readers, IO.s_ioerr, IO.t_eof, IO.h_noswallow, D.h_block, B.l_consume, PL.h_pending, PL.h_total, P3.t_prims],
     "Decided per site: every transport call is read_exact (operand read completely before use) or poll_read in poll "
     "(S-readers); every io::Result is propagated by `?` or a kind-preserving map_err (S-ioerr); is_eof <=> IoError(UnexpectedEof) "
     "for both error types and zero-length reads produce exactly that (T-eof, P-header/P-body); no map_err closure relabels an I/O "
@@ -167,7 +171,7 @@ reg("C07", "other",
 
 reg("C08", "other",
     [PL.h_total, PL.h_cap, B.l_consume, P.l_propdec, P.h_proplen, T.t_width, T.t_varint_readers, PL.s_persist, P3.h_shortform,
-     C.h_utf8, IO.s_readers],
+     C.h_utf8, IO.s_readers, P3.t_prims],
     "NOT decided: equality of a decoded sequence with a generated one over all histories. Decided: the per-packet consumption "
     "invariant from which framing follows by induction: the poll decoder reads 1 + (1 + var_idx) header bytes and exactly "
     "remaining_len body bytes and reports their sum (P-header, P-complete, P-body, S-persist); every accounting body decoder consumes "
@@ -176,7 +180,7 @@ reg("C08", "other",
     "goes on to the property block otherwise (H-shortform); total_len / header_len / remaining_len are mutually consistent (T-width).")
 
 reg("C09", "other",
-    [IO.h_async1, IO.h_asref, IO.s_writers, IO.s_pure, L.l_hdr, L.l_fixed, L.l_eq],
+    [IO.h_async1, IO.h_asref, IO.s_writers, IO.s_pure, L.l_hdr, L.l_fixed, L.l_eq, P3.t_prims],
     "Decided for the crate's own code (tokio's write_all semantics under partial writes / Pending are trusted): encode_async is "
     "encode()? followed by exactly one write_all(data.as_ref()) on the same bytes with no branching (H-async1); VarBytes::as_ref "
     "returns the whole container for every variant (H-asref); only write_all is ever called on a sink and no buffering adapter sits "
@@ -185,7 +189,7 @@ reg("C09", "other",
     "encode closure reads no static/thread-local/interior-mutable state and calls nothing environment dependent (S-pure).")
 
 reg("C10", "other",
-    [T.t_rc, L.t_ctl, P.t_propid, B.t_bits, T.t_varint_writer, T.t_proto, L.l_hdr, L.l_eq, P.t_prop3, TR.l_trace],
+    [T.t_rc, L.t_ctl, P.t_propid, B.t_bits, T.t_varint_writer, T.t_proto, L.l_hdr, L.l_eq, P.t_prop3, TR.l_trace, P3.t_prims],
     "Static analysis cannot run an independent decoder; decided instead: every constant the encoder puts on the wire equals the "
     "independently typed OASIS tables (spec_mqtt.py): control bytes incl. PUBLISH flag bits for all 12 flag combinations (T-ctl), all "
     "138 wire-code enum discriminants (T-rc), property ids, their wire types and the id-then-value order, length prefix = sum of "
@@ -196,7 +200,7 @@ reg("C10", "other",
 
 reg("C11", "other",
     [L.l_eq, B.l_cover, T.t_bij, PN.s_panic_encode, T.t_width, C.h_ctor, P.l_propdec, P.h_proplen, B.t_bits, L.t_ctl, P3.h_shortform,
-     TR.l_trace],
+     TR.l_trace, P3.t_prims],
     "NOT decided: the runtime round trip over accepted byte strings. Decided (necessary): the encoder is length-exact on every "
     "value a decoder can construct, not only canonical ones (L-eq quantifies over all atom assignments); every length-bearing "
     "field is written whenever present, depending only on itself (L-cover); every enum value a from_u8 table returns is written "
